@@ -44,4 +44,44 @@ def gget (m : GMap) (k : String) (default : Int) : Int :=
   | some e => e.2
   | none => default
 
+/-! ### `Globals` holding patterns: the by-name reference `PGlobals(name)`
+
+`Globals.get(key)` returns `Pattern.value(Globals.dict[key])`: a scalar as it is, a pattern's NEXT value — the
+stored pattern object is advanced, so successive reads (by any number of `PGlobals` readers) walk through it.
+`Globals.set(key, v)` (both forms) replaces the target.  Values are opaque tokens (`String`); a pattern target
+is an endlessly repeated sequence with its read position. -/
+
+inductive GVal
+  | scalar (v : String)
+  | seq (vals : List String) (pos : Nat)
+  deriving DecidableEq, Repr, Inhabited
+
+abbrev GEnv := List (String × GVal)
+
+def GEnv.lookup (e : GEnv) (k : String) : Option GVal :=
+  match e.find? (fun x => x.1 == k) with
+  | some x => some x.2
+  | none => none
+
+/-- `Globals.set(k, v)` / `Globals.set({k: v})` -/
+def GEnv.set (e : GEnv) (k : String) (v : GVal) : GEnv := (k, v) :: e
+
+/-- `next(PGlobals(k, default))`: the value read and the environment afterwards (`none` = the default) -/
+def GEnv.read (e : GEnv) (k : String) : Option String × GEnv :=
+  match e.lookup k with
+  | none => (none, e)
+  | some (.scalar v) => (some v, e)
+  | some (.seq vals pos) =>
+    match vals with
+    | [] => (none, e)                                   -- (an empty sequence is never generated: it ends at once)
+    | _ => (vals[pos % vals.length]?, (k, .seq vals (pos + 1)) :: e)
+
+/-- `n` successive reads of one name -/
+def GEnv.reads (e : GEnv) (k : String) : Nat → List (Option String) × GEnv
+  | 0 => ([], e)
+  | n + 1 =>
+    let r := e.read k
+    let rs := GEnv.reads r.2 k n
+    (r.1 :: rs.1, rs.2)
+
 end IsobarV.Static
